@@ -19,7 +19,6 @@ package main
 import (
 	"fmt"
 	"os"
-	"runtime/pprof"
 	"strconv"
 )
 
@@ -35,12 +34,6 @@ func main() {
 		}
 	}
 	thorough := os.Getenv("VERIF_TIER") == "thorough"
-	if pf := os.Getenv("VERIF_PPROF"); pf != "" { // development aid only
-		f, err := os.Create(pf)
-		must(err)
-		must(pprof.StartCPUProfile(f))
-		defer pprof.StopCPUProfile()
-	}
 	switch os.Args[1] {
 	case "c26":
 		runC26(os.Args[2], os.Args[3], os.Args[4], seed, thorough)
